@@ -100,6 +100,18 @@ def _spherical(ctx, pydrex, case):
     ctx.check("to_cartesian_convention", bool(ok), case)
     X1, Y1, Z1 = G.to_cartesian(a, b)
     ctx.check("to_cartesian_default_radius_is_unit", bool(np.allclose(X1**2 + Y1**2 + Z1**2, 1.0, atol=1e-12)), case)
+    # scalar, integer and list arguments are accepted and mean the same
+    i0 = int(rng.integers(len(pts)))
+    px, py, pz = (float(v) for v in pts[i0])
+    rs, ps, ts_ = G.to_spherical(px, py, pz)
+    rl, pl, tl = G.to_spherical([px, px], [py, py], [pz, pz])
+    same = (abs(float(rs[0]) - float(r[i0])) <= 1e-12 * float(r[i0]) and float(ps[0]) == float(ph[i0]) and float(ts_[0]) == float(th[i0])
+            and float(rl[1]) == float(rs[0]) and float(pl[1]) == float(ps[0]) and float(tl[1]) == float(ts_[0]))
+    ri, pi_, ti = G.to_spherical(3, -4, 12)
+    same = same and abs(float(ri[0]) - 13.0) <= 1e-12 and abs(np.cos(float(ti[0])) - 12 / 13) <= 1e-12 and abs(float(pi_[0]) - np.arctan2(-4, 3)) <= 1e-12
+    xs, ys, zs = G.to_cartesian(float(ps[0]), float(ts_[0]), float(rs[0]))
+    same = same and max(abs(float(xs[0]) - px), abs(float(ys[0]) - py), abs(float(zs[0]) - pz)) <= 1e-12 * float(rs[0])
+    ctx.check("scalar_list_integer_arguments", bool(same), case, point=[px, py, pz])
 
 
 def _poles(ctx, pydrex, case):
@@ -141,6 +153,10 @@ def _lambert(ctx, pydrex, case):
     v = np.vstack([v, extra])
     ctx.case(case)
     X, Y = (np.asarray(a) for a in G.lambert_equal_area(*v.T))
+    Xs, Ys = G.lambert_equal_area(float(v[3, 0]), float(v[3, 1]), float(v[3, 2]))
+    Xl, Yl = G.lambert_equal_area(list(v[:5, 0]), list(v[:5, 1]), list(v[:5, 2]))
+    ctx.check("lambert_scalar_and_list_arguments", bool(np.allclose([Xs[0], Ys[0]], [X[3], Y[3]], atol=1e-15) and np.allclose(Xl, X[:5], atol=1e-15)
+                                                         and np.allclose(Yl, Y[:5], atol=1e-15)), case)
     fin = bool(np.isfinite(X).all() and np.isfinite(Y).all())
     R2 = X**2 + Y**2
     e1 = float(np.abs(R2 - (1 - np.abs(v[:, 2]))).max())
